@@ -10,7 +10,7 @@ TIERS = {
 REQUIRED_PROBES = ['consecutive_equal_size_batches', 'consecutive_equal_size_and_width', 'equal_size_different_width',
                    'batch_size_change', 'lines_finish_at_different_steps', 'line_hit_length_cap',
                    'line_finished_immediately', 'batch_after_abort', 'lines_checked_alone', 'run_ocr_centre_padded', 'forced_prefix_batches', 'huge_batch_checked', 'peaked_attention_model', 'weights_reloaded_into_live_model',
-                   'earlier_scores_rechecked', 'process_lines_pages']
+                   'earlier_scores_rechecked', 'process_lines_pages', 'process_lines_mixed_width_pages']
 RULE = ('plans = a seeded random-weight model (1-3 decoder layers, 1-4 heads, width 8-32, max_seq_len exactly at '
         'or far above the length cap) and a history of 2-8 batches decoded on the SAME model instance (batch size '
         '1-5, width 16-160 px, cached or uncached, optional injected abort at a step, optional duplicated line; 6 % of plans go through run_ocr with its centre padding to 1088 px) '
